@@ -650,15 +650,30 @@ class Interp:
         return JUMPED
     op_JUMP_BACKWARD_NO_INTERRUPT = op_JUMP_BACKWARD
 
+    def _truth_tos(self, W, F):
+        """truth of TOS; if it needs an interpreted __bool__/__len__, replace TOS by that call's result and
+        re-execute the current instruction afterwards"""
+        from .models import NeedTruthCall
+        try:
+            return self.truth(W, F.stack[-1])
+        except NeedTruthCall as n:
+            F.stack.pop()
+            self.push_frame(W, n.fn, (n.obj,), {}, "push")   # F.pc stays on this instruction
+            return JUMPED
+
     def op_POP_JUMP_IF_TRUE(self, W, F, arg, argval):
-        t = self.truth(W, F.stack[-1])
+        t = self._truth_tos(W, F)
+        if t is JUMPED:
+            return JUMPED
         F.stack.pop()
         if t:
             F.pc = F.ci.jt[F.pc]
             return JUMPED
 
     def op_POP_JUMP_IF_FALSE(self, W, F, arg, argval):
-        t = self.truth(W, F.stack[-1])
+        t = self._truth_tos(W, F)
+        if t is JUMPED:
+            return JUMPED
         F.stack.pop()
         if not t:
             F.pc = F.ci.jt[F.pc]
@@ -675,8 +690,14 @@ class Interp:
             return JUMPED
 
     def op_UNARY_NOT(self, W, F, arg, argval):
+        from .models import NeedTruthCall
         v = F.stack[-1]
-        r = self.py_not(W, v)
+        try:
+            r = self.py_not(W, v)
+        except NeedTruthCall as n:
+            F.stack.pop()
+            self.push_frame(W, n.fn, (n.obj,), {}, "push")
+            return JUMPED
         F.stack[-1] = r
 
     def op_UNARY_NEGATIVE(self, W, F, arg, argval):
